@@ -106,6 +106,64 @@ int main(int argc, char** argv) {
         }
         return false;
     };
+    // roots from which a double pawn step gives check and the ONLY legal reply is to take that pawn en passant (every geometry of king,
+    // checking pawn and capturing pawn, both colours): an engine that overlooks the reply announces a mate that is none
+    {
+        int onlyEp = 0;
+        for (long tries = 0; thinMode && onlyEp < std::max(6, count / 40) && tries < 3000000; tries++) {
+            int board[64] = {0};
+            int xk = rnd.nextInt(8), xp = xk + (rnd.nextInt(2) ? 1 : -1);
+            if (xp < 0 || xp > 7) continue;
+            board[3 * 8 + xk] = Piece::WKING;
+            board[4 * 8 + xp] = Piece::BPAWN;
+            bool any = false;
+            for (int dx = -1; dx <= 1; dx += 2) { int xc = xp + dx; if (xc < 0 || xc > 7 || rnd.nextInt(2) == 0) continue; board[4 * 8 + xc] = Piece::WPAWN; any = true; }
+            if (!any) continue;
+            auto put = [&](int pc) { for (int t = 0; t < 60; t++) { int sq = rnd.nextInt(64); if (board[sq] || (sq % 8 == xp && sq / 8 >= 5)) continue;
+                                     if ((pc == Piece::WPAWN || pc == Piece::BPAWN) && (sq < 8 || sq >= 56)) continue; board[sq] = pc; return; } };
+            put(Piece::BKING);
+            static const int extra[] = {Piece::BQUEEN, Piece::BROOK, Piece::BROOK, Piece::BBISHOP, Piece::BKNIGHT, Piece::WPAWN, Piece::WPAWN, Piece::WKNIGHT, Piece::WBISHOP, Piece::BPAWN};
+            for (int k = 2 + rnd.nextInt(5); k > 0; k--) put(extra[rnd.nextInt(10)]);
+            std::string f;
+            for (int y = 7; y >= 0; y--) {
+                int e = 0;
+                for (int x = 0; x < 8; x++) { int pc = board[y * 8 + x]; if (!pc) { e++; continue; } if (e) { f += std::to_string(e); e = 0; } f += " KQRBNPkqrbnp"[pc]; }
+                if (e) f += std::to_string(e);
+                if (y) f += '/';
+            }
+            std::string after = f + " w - " + (char)('a' + xp) + "6 0 1";
+            bool flip = rnd.nextInt(2) == 0;
+            auto flipBoard = [](const std::string& b) {
+                std::string rows[8]; int ri = 0;
+                for (char ch : b) { if (ch == '/') ri++; else rows[ri] += (char)(isalpha(ch) ? (isupper(ch) ? tolower(ch) : toupper(ch)) : ch); }
+                std::string f2; for (int r = 7; r >= 0; r--) { f2 += rows[r]; if (r) f2 += '/'; } return f2; };
+            if (flip) after = flipBoard(f) + " b - " + (char)('a' + xp) + "3 0 1";
+            Position pa;
+            try { pa = TextIO::readFEN(after); } catch (const ChessParseError&) { continue; }
+            if (!pa.getEpSquare().isValid() || !MoveGen::inCheck(pa)) continue;
+            MoveList ml; legalMoves(pa, ml);
+            if (ml.size != 1 || ml[0].to() != pa.getEpSquare()) continue;
+            int pcm = pa.getPiece(ml[0].from());
+            if (pcm != Piece::WPAWN && pcm != Piece::BPAWN) continue;
+            // the root: the checking pawn back on its own second rank, the other side to move
+            Position root(pa);
+            Square to(xp, flip ? 3 : 4), from(xp, flip ? 1 : 6);
+            if (root.getPiece(from) != Piece::EMPTY) continue;
+            root.setPiece(from, root.getPiece(to));
+            root.setPiece(to, Piece::EMPTY);
+            root.setEpSquare(Square(-1));
+            root.setWhiteMove(!pa.isWhiteMove());
+            std::string rf = TextIO::toFEN(root);
+            Position chk;
+            try { chk = TextIO::readFEN(rf); } catch (const ChessParseError&) { continue; }
+            if (MoveGen::inCheck(chk)) continue;
+            MoveList rl; legalMoves(chk, rl);
+            bool pushLegal = false;
+            for (int i = 0; i < rl.size; i++) if (rl[i].from() == from && rl[i].to() == to) pushLegal = true;
+            if (!pushLegal) continue;
+            emit("thin", chk, rf, {}, rl.size); emitted++; onlyEp++;
+        }
+    }
     int forced = 0;
     for (int tries = 0; thinMode && forced < count / 4 && tries < 400000; tries++) {
         Position pos;
